@@ -1,6 +1,7 @@
 """Per-property configuration of the checks: which event families are generated, which trace
 specification judges them, which model-checking configurations of the specification itself run first."""
 import json
+import collections
 
 ENC_ACTIONS = "EvEncode ReadAscii ReadC40 ReadText ReadX12 ReadEdifact ReadB256 ReadFinish EvDecodeData EvDecodePixels EvPlan"
 
@@ -54,6 +55,40 @@ PROPS = {
         "assumptions": [],
     },
 }
+
+def rs_job(focus, profiles=("release",)):
+    return {"family": "rs", "spec": "Trace_RS", "focus": focus, "profiles": profiles}
+
+
+PROPS.update({
+    "C03": {
+        "level_text": "Fault enumeration driven by the specification's block structure: for every size and block, error patterns of weight 1..floor(k/2) in the data region, the EC region, split, first/last codeword of each region, bursts, all blocks at once; TLC recomputes the per-block distance with its own interleaving and requires success with exactly the sent word.",
+        "level_note": "Trusts: GF256.tla/ReedSolomon.tla (self-checked by ASSUMEs); premise 'sent is a codeword' is evaluated by TLC, not assumed.",
+        "jobs": [rs_job("C03")],
+        "rule": "one case = (size, random data vector, error pattern within capacity) -> encode_error, corrupt, decode_error; 12 pattern "
+                "shapes per block of each of the 48 sizes, all blocks at weight t, all weight-2 position pairs for sizes with <= 24 "
+                "codewords; non-trivial = at least one error; distinct = case id (each has a fresh random data vector)",
+        "assumptions": ["error values from {1,0x80,0xFF} and random non-zero values"],
+    },
+    "C06": {
+        "level_text": "Every ecc vector returned by encode_error is checked by TLC to make each interleaved block a multiple of the generator polynomial (all k syndromes zero with the spec's own GF(256) and interleaving); unit vectors at each block's last data position are compared literally with Gen(k) = prod (x - alpha^i).",
+        "level_note": "Trusts: GF256.tla; linear-code argument (unit vectors + sparse/random vectors) extends the finite run to all data vectors only if the encoder is linear - sparse strata probe non-linearity.",
+        "jobs": [rs_job("C06")],
+        "rule": "per size: zero, all-FF, unit vectors (quick: first/last/random data position of each block; thorough: every position), "
+                "scaled unit vectors, random vectors, sparse vectors (90%/66% zeros, short non-zero prefix), all (a,b,0) data vectors for "
+                "10x10; non-trivial = data vector not all-zero; distinct = distinct (size, data)",
+        "assumptions": [],
+        "exhaustive_thorough": False,
+    },
+    "C09": {
+        "level_text": "Whenever decode_error reports success TLC recomputes all syndromes of the word left behind; received words are aimed at the thin sets: codeword + multiple of prod_{i<=m}(x-alpha^i) for m = 2t-2..k-1 (+ up to t-1 errors), distance t+1..t+3 and k, uniformly random words (4000 for 10x10).",
+        "level_note": "Trusts: GF256.tla/ReedSolomon.tla.",
+        "jobs": [rs_job("C09")],
+        "rule": "one case = (size, received word); non-trivial = decoder returned Ok on a word that differs from a sent codeword or has no "
+                "sent codeword; counted: all cases where the decoder was consulted beyond capacity",
+        "assumptions": [],
+    },
+})
 
 MC = {}
 HOOK_COMMITS = []
@@ -109,6 +144,23 @@ def account(pid, fam, case, verdict, ev):
             ev["notes"]["reader_leniency_dangling_shift_at_unlatch"] += 1
         for m in set(verdict.get("latches", [])):
             ev["notes"]["streams_latching_" + m] += 1
+    elif fam == "rs":
+        res = case["events"][-1]["res"] if case["events"] else {}
+        ev["notes"]["correct_" + str(res.get("kind"))] += 1
+        ev["notes"]["size_" + case["size"]] += 1
+        if pid == "C06":
+            if any(case.get("sent", [])):
+                ev["nontrivial"].add(hash((case["size"], tuple(case.get("sent", [])))))
+        elif pid == "C03":
+            if case.get("errs"):
+                ev["nontrivial"].add(case["id"])
+        else:
+            info = verdict.get("info") or []
+            if info and not info[0]:
+                ev["nontrivial"].add(case["id"])
+            if info and len(info) > 1:
+                for z in info[1]:
+                    ev.setdefault("x_leading_zero_syndromes_presented", collections.Counter())[str(z)] += 1
     else:
         ev["nontrivial"].add(case["id"])
 
